@@ -1008,7 +1008,7 @@ class ConstructedPayloadDecoderBase(AbstractConstructedPayloadDecoder):
 
                     except IndexError:
                         raise error.PyAsn1Error(
-                            'Excessive components decoded at %r' % (asn1Object,)
+                            'Excessive components decoded at %r' % (asn1Object.clone(),)
                         )
 
                 for component in decodeFun(substrate, asn1Spec, allowEoo=True, **options):
@@ -1024,7 +1024,7 @@ class ConstructedPayloadDecoderBase(AbstractConstructedPayloadDecoder):
 
                 if namedTypes and not isSetType and len(namedTypes) <= idx:
                     raise error.PyAsn1Error(
-                        'Excessive components decoded at %r' % (asn1Object,)
+                        'Excessive components decoded at %r' % (asn1Object.clone(),)
                     )
 
                 if not isDeterministic and namedTypes:
